@@ -7,7 +7,7 @@ CONSTANTS
   Ks = {1, 2}
   Fmts = {"bc"}
   NFiles = {1}
-  Lazy = {FALSE}
+  Lazy = {"none"}
   Touches = {"lookup", "getitem"}
   Variant = "tie_first"
 INVARIANT TypeOK
